@@ -3548,6 +3548,8 @@ func (db *DatabaseCollectionWithUser) Purge(ctx context.Context, key string, nee
 	if err := db.dataStore.DeleteWithXattrs(ctx, key, presentXattrsToDelete); err != nil {
 		return err
 	}
+	// The access()/role() grants made by the purged document are gone with it.
+	db.invalidatePurgedDocGrantees(ctx, doc)
 	if needsAudit {
 		base.Audit(ctx, base.AuditIDDocumentDelete, base.AuditFields{
 			base.AuditFieldDocID:  key,
@@ -3555,6 +3557,25 @@ func (db *DatabaseCollectionWithUser) Purge(ctx context.Context, key string, nee
 		})
 	}
 	return nil
+}
+
+// invalidatePurgedDocGrantees invalidates the computed channels and roles of every principal that was granted access
+// by the access() or role() calls of a document that has just been purged. A tombstone revokes these grants through
+// updateAndReturnDoc; a purge writes no revision, so the principals have to be marked as changed here.
+func (db *DatabaseCollectionWithUser) invalidatePurgedDocGrantees(ctx context.Context, doc *Document) {
+	if len(doc.Access) == 0 && len(doc.RoleAccess) == 0 {
+		return
+	}
+	// There is no new revision whose sequence could date the revocation. Allocate one (and release it as unused, as
+	// it is never written to a document) so that the revocation is later than anything a client has already pulled.
+	invalSeq, err := db.sequences().nextSequence(ctx)
+	if err != nil {
+		base.WarnfCtx(ctx, "Unable to allocate a sequence to invalidate access granted by purged doc %q, using the doc's own sequence: %v", base.UD(doc.ID), err)
+		invalSeq = doc.Sequence
+	} else if err := db.sequences().releaseSequence(ctx, invalSeq); err != nil {
+		base.WarnfCtx(ctx, "Error returned when releasing sequence %d. Falling back to skipped sequence handling.  Error:%v", invalSeq, err)
+	}
+	db.MarkPrincipalsChanged(ctx, doc.ID, "", slices.Collect(maps.Keys(doc.Access)), slices.Collect(maps.Keys(doc.RoleAccess)), invalSeq)
 }
 
 // ////// CHANNELS:
